@@ -517,6 +517,7 @@ func (fr *Frame) libModel(callee *ssa.Function, args []Val, rt types.Type, pos t
 		isBool := strings.HasSuffix(vc.typeName(T), "atomic.Bool")
 		rd := func() string {
 			v := vc.loadLoc(fr.cur.heap, loc).T()
+			vc.assume(fr.curR, vc.leafFact(v, Leaf{"", "Int", T}))
 			return v
 		}
 		wr := func(t string) {
